@@ -205,6 +205,8 @@ PMut(e, d, s, r, m) ==
         \* C08: the certificate-based lifting (H79 certificate): a non-stationary step must decrease the pair
         \* (certificate of the hull, multiset of the certificates of the disjuncts)
         ELSE IF SameU(UH(r), BB, m) THEN "ok"
+        \* (the certificate is defined on omega-reduced powersets: an argument or a result logged with a redundant disjunct is not judged)
+        ELSE IF ~NoRedundant([D |-> NE(s)]) \/ ~NoRedundant([D |-> NE(r)]) THEN "und"
         ELSE V1(PCertLess(r, s, m), "C08:BHZ03-certificate-does-not-decrease-on-a-non-stationary-step"))
   ELSE IF op \in UnaryOps THEN
        (IF HasProperCg(e) THEN "und"
